@@ -52,6 +52,10 @@ CHECKS = {
    "Runtime monitor: sequential histories of add/remove/select on the real LoadBalancedManager judged against a reference set with permutation-window fairness and starvation bounds; concurrent histories recorded at the call boundary and checked with porcupine against a set model partitioned by endpoint, under the race detector.",
    "Round-robin order is judged sequentially only; porcupine timeouts are inconclusive.",
    "runtime monitoring: reference-model oracle + porcupine linearizability check of recorded concurrent histories + race detector", "4/C15"),
+ "C18": (E3, "fault_enumeration",
+   "Runtime monitor on clusters of real piko server processes: the complete victim x phase x signal fault list (SIGTERM/SIGKILL at idle, with upstreams, with requests in flight, mid-shutdown) is executed; the oracle reads exit status and timing of the victim, the survivors' routing tables through the admin API at the instant of exit, the listeners' own Serve/Accept results, re-registration counts, settle-then-probe through every survivor and the forwarded-request counters.",
+   "Settling decided from the survivors' admin API; slowness beyond the 60 s watchdog is inconclusive; mid-shutdown approximated by a second signal after 150 ms; thorough tier uses the race-built server binary and 3-5 nodes.",
+   "runtime monitoring: enumerated crash/shutdown fault list on real processes with black-box admin-API and client-side oracles", "4/C18"),
  "C19": (E4, "exploration",
    "Runtime monitor on the real upstream.Server.Rebalance() with real WebSocket+yamux sessions and injected routing views: per case the number of sessions closed by one call is read from the server and cross-checked with the clients, and judged against exact-rational reference bounds. The parameter grid is enumerated completely; further seeded cases use up to 300 sessions.",
    "Safety only (no lower bound); rebalance configuration swapped through a verif-tagged setter; quiescence (no closed-but-registered session) established before each call.",
